@@ -503,7 +503,10 @@ Definition visit_chased (f : fstate) (id : ptr) (depth : Z) (pre : list ev) : li
       let want := (ms >? 0) && (nd >? 0) && forallb (fun d => (0 <? d) && (d <=? DATA_CAP)) dims &&
                   (cnt * ms <=? DATA_CAP) in
       if want then
-        let r := read_all_data f h (cnt * ms) in
+        let r := match read_all_data f h (cnt * ms) with          (* the client's buffer is calloc'ed and hashed whole *)
+                 | Ok (w, d) => Ok (w, d ++ repeat 0 (Z.to_nat (cnt * ms) - length d))
+                 | r => r
+                 end in
         if clean r then visit_kids f id depth h (head ++ [EvX r]) else (head ++ [EvX r], None)
       else visit_kids f id depth h head
   | _ => (pre ++ [EvL (recast rc)], if clean rc then Some [] else None)
